@@ -95,6 +95,21 @@ func gen(tier string) []proto.Item {
 				delete(s.Hops, r[0])
 				s.Inject = []proto.Inject{{OnTTL: r[0], AnswerTTL: r[0], Form: form, From: proto.Router(vi.V6, 0, r[0]).String(), DelayUs: 20000, Tag: "duplicate-flood", Genuine: true, Repeat: cnt, EveryUs: 1000}}
 				items = append(items, proto.Item{Scn: s, Class: cls + "/genuine-duplicates-flood", Note: map[string]string{"extra": fmt.Sprint(cnt)}})
+				// an answer to a probe that has not been sent yet (stale / forged traffic on the run's own flow), then silence
+				if r[1] > r[0] {
+					for _, f := range []string{vi.TEForm, vi.DestForm} {
+						if vi.Kind == "tcp" && f != vi.TEForm {
+							continue // (a SYN-ACK / RST carries no per-probe identifier: not an "early" reply in the default SYN mode)
+						}
+						s = mk()
+						from := evil
+						if f == vi.DestForm {
+							from = s.Target().String()
+						}
+						s.Inject = []proto.Inject{{OnTTL: r[0], AnswerTTL: r[1], Form: f, From: from, DelayUs: 500, Tag: "early"}}
+						items = append(items, proto.Item{Scn: s, Class: cls + "/reply-before-its-probe", Note: map[string]string{"extra": "1"}})
+					}
+				}
 				// a burst right at the deadline
 				s = mk()
 				at := cfg[0]*1000 - 500
